@@ -156,7 +156,7 @@ def write_shards(wd, module, items, shards=16, only=None, offset=0, first_shard=
             d["i"] = i
             side.write(json.dumps(d, ensure_ascii=False) + "\n")
     for k, its in enumerate(files):
-        if not its and only is not None:
+        if not its:
             continue
         with open(os.path.join(wd, "shard_%d.v" % (k + first_shard)), "w") as f:
             f.write("From Selene Require Import Corr.%s.\nOpen Scope string_scope. Open Scope list_scope.\n" % module)
